@@ -79,7 +79,25 @@ VTwin(ev) ==
       ELSE IF IsVal(ev[19]) /\ ev[19][2] = codingChars THEN "ok"
       ELSE IF unreduced /\ ((IsVal(ev[19]) /\ ev[19][2] = CharsOf(FlatCodons(Tail(want)), st = "-", R))
                             \/ (Len(want) = 1 /\ Rejected(ev[19])))
-           THEN "chunk-codons:single-exon-offset" ELSE "chunk-cds-sequence"
+           THEN "chunk-codons:single-exon-offset" ELSE "chunk-cds-sequence",
+      \* chunk-relative frames (optional fields 21, 22 = outcome, chunkOnMinusStrand): one frame per CDS block that has a
+      \* base on the chunk, in block order; with frames that follow from the block lengths (what is generated here) the
+      \* frame of a block is fixed by the position, within the whole CDS, of its 5'-most base ON THE CHUNK:
+      \* however many exons the chunk skips
+      IF Len(ev) < 22 \/ ev[22] \/ SelfOverlap(cdsl) \/ insb = <<>> THEN "ok"
+      ELSE LET f0 == Frames5(cds)[1]
+               onChunk(j) == {p \in cdsl[1][j][1]..(cdsl[1][j][2] - 1) : ws <= p /\ p < we}
+               lead(j) == IF st = "-" THEN Max(onChunk(j)) ELSE Min(onChunk(j))
+               idx(p) == (CHOOSE i \in DOMAIN allb : allb[i] = p) - 1
+               blocksOn == SelectSeq([j \in 1..NB(cdsl) |-> j], LAMBDA j : onChunk(j) # {})
+               \* position within its codon of a base: (index - f0) mod 3.  An internal block carries that position of its
+               \* leading base; the 5'-most block on the chunk carries the number of bases to SKIP, (3 - position) mod 3
+               \* (the library's two readings of "frame", as in construct_frames_from_location)
+               pos(p) == (idx(p) + 3 - f0) % 3
+               first5 == IF st = "-" THEN blocksOn[Len(blocksOn)] ELSE blocksOn[1]
+               wantF == [k \in DOMAIN blocksOn |-> IF blocksOn[k] = first5 THEN (3 - pos(lead(blocksOn[k]))) % 3
+                                                    ELSE pos(lead(blocksOn[k]))] IN
+           Ok(IsVal(ev[21]) /\ ev[21][2] = wantF, "chunk-relative-frames")
     >>)
   >>)
 (* ["agg", kind, route, ctor, ws, we, exons (of the longest child), R,
